@@ -6,6 +6,9 @@ import ast as pyast
 import os, re
 from msa import effect as E
 from msa import ast as A
+from msa import pair as P
+from msa import cfg as C
+from msa import guards as G
 from msa import facts as F
 from msa.facts import AnalysisBroken
 from . import common
@@ -194,6 +197,70 @@ def counts_fields(cf, d):
             if any(x['k'] == 'UnaryOperator' and x.get('op') in ('post++', 'pre++') and A.strip_casts(x['ch'][0]).get('d') == d for x in lp.walk()):
                 return True
     return False
+
+
+def cmini_consistency_rules(res, fx):
+    """two pieces of cached state in the C mini codec that determine the bytes put on the wire:
+    (a) MiniMessageGateway: every output buffer starts with an in-memory next-pointer that must never be sent — wherever the send cursor is set for a fresh buffer it is set to the same offset;
+    (b) MiniMessage: a field's cached name length (nameBytes) is what MMFlattenMessage writes as the name-length word — wherever the name is rewritten the cached length is the new length."""
+    res.rule('C-CACHED', 'MiniMessageGateway.c: all constant values assigned to _curOutputPos agree (the size of the leading next-pointer); MiniMessage.c: a memcpy into a field\'s name of L bytes is '
+                         'reached only through an assignment nameBytes = L or on the edge where L - nameBytes is known to be 0', floor=2)
+    vals = []
+    for f in (g for g in fx.funcs.values() if g.full and g.file.endswith('minimessage/MiniMessageGateway.c')):
+        for w in f.walk():
+            if w['k'] == 'BinaryOperator' and w.get('op') == '=' and A.strip_casts(w['ch'][0])['k'] == 'MemberExpr' and A.strip_casts(w['ch'][0]).get('n') == '_curOutputPos' and 'v' in A.strip_casts(w['ch'][1]):
+                vals.append((f, w, A.strip_casts(w['ch'][1])['v']))
+    if len(vals) < 2:
+        raise AnalysisBroken('C-CACHED: fewer than two constant assignments to _curOutputPos found')
+    distinct = sorted(set(v for (_, _, v) in vals))
+    odd = [x for x in vals if [v for (_, _, v) in vals].count(x[2]) == 1 and len(distinct) > 1]
+    res.ob('C-CACHED', (odd[0][0].where(odd[0][1]) if odd else vals[0][0].where(vals[0][1])), 'every fresh output buffer is sent from the same offset (after its next-pointer)', len(distinct) == 1,
+           how='_curOutputPos = %s at %d sites' % (distinct, len(vals)), function='MiniMessageGateway', key='C-CACHED|_curOutputPos',
+           message='_curOutputPos is set to different constants %s for a fresh output buffer: where it is not the size of the leading next-pointer, %s raw pointer bytes precede the frame on the wire '
+                   '(from the second Message on the stream is no longer [length][encoding][body])' % (distinct, distinct[-1] - distinct[0] if len(distinct) > 1 else 0))
+    n = 0
+    for f in sorted((g for g in fx.funcs.values() if g.full and g.file.endswith('minimessage/MiniMessage.c')), key=lambda g: g.line):
+        for c in f.walk():
+            if not (c.is_call() and (c.get('q') or '') in ('memcpy', 'strcpy', 'strncpy', 'memmove') and c.args()):
+                continue
+            dst = c.args()[0]
+            if not any(x['k'] == 'MemberExpr' and x.get('n') == 'name' for x in dst.walk()):
+                continue
+            if len(c.args()) < 3:
+                continue
+            L = A.strip_casts(c.args()[2])
+            if any(x['k'] == 'MemberExpr' and x.get('n') == 'nameBytes' for x in A.walk_through_locals(f, L)):
+                continue          # the length written IS the cached length (clone / copy of a whole field)
+            # only an EXISTING field's name: the function also reads nameBytes (a constructor that fills a fresh field sets it unconditionally and is covered by the same test)
+            n += 1
+            lk = A.render_key(L)
+            as_blocks = set()
+            for w in f.walk():
+                if w['k'] == 'BinaryOperator' and w.get('op') == '=' and A.strip_casts(w['ch'][0])['k'] == 'MemberExpr' and A.strip_casts(w['ch'][0]).get('n') == 'nameBytes' and A.render_key(w['ch'][1]) == lk:
+                    p_ = P.pos_of(f, w)
+                    if p_:
+                        as_blocks.add(p_[0])
+            zedges = set()
+            for blk in f.blocks.values():
+                if blk.cond is None or blk.cond not in f.nodes or len(blk.succ) != 2:
+                    continue
+                for truth in (True, False):
+                    z = A.zero_test(f.nodes[blk.cond], truth)
+                    if z is not None and z[1]:
+                        e0 = G.local_init(f, z[0])
+                        if e0['k'] == 'BinaryOperator' and e0.get('op') == '-' and A.render_key(e0['ch'][0]) == lk and any(x['k'] == 'MemberExpr' and x.get('n') == 'nameBytes' for x in e0['ch'][1].walk()):
+                            zedges.add((blk.b, 0 if truth else 1))
+                    for (l_, op_, r_) in A.rel_forms(f.nodes[blk.cond], truth):
+                        if op_ == '==' and A.render_key(l_) == lk and any(x['k'] == 'MemberExpr' and x.get('n') == 'nameBytes' for x in r_.walk()):
+                            zedges.add((blk.b, 0 if truth else 1))
+            pc = P.pos_of(f, c)
+            reach = C.reachable_blocks(f, f.entry, avoid_edges=tuple(zedges), avoid_blocks=tuple(as_blocks))
+            ok = pc is not None and pc[0] not in reach
+            res.ob('C-CACHED', f.where(c), '%s: the cached name length equals the %s bytes written into the name' % (f.q, L.text(20)), ok, function=f.q, key='C-CACHED|%s|nameBytes' % f.q,
+                   message='%s rewrites a field\'s name (%s bytes) on a path that neither sets nameBytes to that length nor has established that it is unchanged: MMFlattenMessage writes the stale '
+                           'nameBytes as the name-length word, so the flattened field carries the old length and the tail of the old name (C++ and Python then see a different field name)' % (f.q, L.text(20)))
+    if n < 1:
+        raise AnalysisBroken('C-CACHED: no write of a field name found in MiniMessage.c')
 
 
 def py_effect_rule(res, py):
@@ -517,6 +584,7 @@ def run(res, tier):
             okp = isinstance(c.args[2], pyast.Name) and c.args[2].id == 'MUSCLE_MESSAGE_ENCODING_DEFAULT' and isinstance(c.args[1], pyast.Call)
     res.ob('FRAME', 'lang/python3/message_transceiver_thread.py', 'Python transceiver packs "<2L" (FlattenedSize(), MUSCLE_MESSAGE_ENCODING_DEFAULT)', okp, function='Python:transceiver', key='FRAME|python',
            message='message_transceiver_thread.py no longer frames Messages as "<2L" of length and default encoding')
+    cmini_consistency_rules(res, fx)
     res.explanation = ('Static cross-check of the four Message codecs shipped in the repository against each other and against the documented layout, as tables: constants from macro/enum/variable/Python-ast records; '
                        'per-type payload shapes from symbolic evaluation of the C++ array serialisers and of the C size function under each type-code constraint, from the C import table, and from the Python '
                        'size function, struct formats and array type codes; header word sources; byte-order discipline; the 8-byte stream frame. A change made consistently on both C++ sides still disagrees '
